@@ -43,9 +43,20 @@ THEOREMS = [
     dict(name="Snow.C20.qE_eq", clause="q_e = -N_w dHe iff configuration = VISF and t_start*3600 < t < (t_start+t_dur)*3600, else 0", strength="full"),
     dict(name="Snow.C20.no_evap_outside_window", clause="no evaporative term outside the vacuum window or outside VISF; the top ghost value is then the top value", strength="full"),
     dict(name="Snow.C20.visf_step_eq_shelf_outside_window", clause="outside the window the VISF cooling step of the top node is the shelf step", strength="full"),
-    dict(name="Snow.C20.visf_eq_shelf_before_window", clause="with the loop body an arbitrary function of q_e, a VISF stage and the shelf stage coincide up to the first step inside the window", strength="full"),
-    dict(name="Snow.C20.visf_eq_shelf_empty_window", clause="an empty window: the whole VISF stage is the shelf stage", strength="full"),
+    dict(name="Snow.C20.visf_eq_shelf_before_window", clause="lemma on an ABSTRACT loop (body an arbitrary function of q_e): a VISF stage and the shelf stage coincide up to the first step inside the window", strength="lemma (abstract loop; the run-level clause is visf_run1D_eq_shelf*)"),
+    dict(name="Snow.C20.visf_eq_shelf_empty_window", clause="lemma on the abstract loop: empty window, whole stage", strength="lemma (abstract loop; the run-level clause is visf_run1D_eq_shelf*)"),
+    dict(name="Snow.C20.window_model_is_1D_model", clause="link: the evaporative flux Snow.qEvap of the executable 0D/1D model IS the window model's q_e (same window test, same sign), every numeric instance", strength="full"),
+    dict(name="Snow.C20.window_model_is_2D_model", clause="link: S2D.qEvap of the executable 2D model IS the window model's q_e column by column", strength="full"),
+    dict(name="Snow.C20.window_model_qE", clause="the q_e of the window theorems is the same qEWith at the generated flux", strength="full"),
+    dict(name="Snow.C20.qEWith_zero_outside", clause="q_e (any flux) is 0 outside VISF / outside the window", strength="full"),
+    dict(name="Snow.C20.visf_run1D_eq_shelf", clause="REAL 1D model: a VISF run whose window is met at no time equals the shelf run (exception, statistics, every history row of run1DOn), every numeric instance", strength="full"),
+    dict(name="Snow.C20.visf_run1D_eq_shelf_empty_window", clause="REAL 1D model: t_vac_duration <= 0 => run1D(VISF) = run1D(shelf)", strength="full"),
+    dict(name="Snow.C20.visf_cool1D_eq_shelf_before_window", clause="REAL 1D model: while dt*i <= t_vac_start*3600 the cooling loop (stop index, field, hazard, saved rows) is that of the shelf run - identical up to step n", strength="partial"),
     dict(name="Snow.C20.evap_cools_iff", clause="inside the window q_e <= 0 iff p_vap >= p_vac (T_l = T_v > 0)", strength="full"),
+    dict(name="monitored:triple_point_coincide", clause="the two curves coincide at the triple point (273.16 K): NO theorem, evaluated at Float on every run (relative gap <= 1e-6)", strength="monitored"),
+    dict(name="monitored:p_ice_le_p_liq_below", clause="p_ice <= p_liq below the triple point: NO theorem, evaluated on the 0.01 K grid 123-273.15 K on every run", strength="monitored"),
+    dict(name="monitored:p_liq_strictMono_123_235", clause="liquid curve strictly increasing on [123, 235) K: NO theorem, evaluated on the 0.01 K grid on every run", strength="monitored"),
+    dict(name="monitored:visf_eq_shelf_2D_and_solidification_prefix", clause="2D runs and the solidification-stage prefix of 1D runs before the window: NO run-level theorem (2D model has only the q_e link), real 1D run pairs are compared on every run", strength="monitored"),
     dict(name="Snow.C20.nonvacuous", clause="hypotheses are satisfiable (default VISF parameters)", strength="nonvacuity"),
 ]
 TRUSTED = [
@@ -97,11 +108,23 @@ THEOREMS = THEOREMS + [
     dict(name="Snow.GenTie.Evap.vapour_pressure_solid", clause="hand transcription Evap.vapourPressureSolid = generated "
          "vapour_pressure_solid, every numeric instance", strength="tie"),
 ]
-extra_lean_targets = list(globals().get("extra_lean_targets", [])) + ["SnowProofs.Props.GenTie.Evap"]
+# the `q_e = -N_w * dHe` statements of the four Snowing loops (1D/2D, cooling/solidification) are re-derived from the
+# source and proved equal to the run models' qEvap inside the window: sign-correctness at every call site
+import gentie  # noqa: E402
+THEOREMS = THEOREMS + [
+    dict(name="Snow.GenTie.S1D.q_e", clause="1D cooling loop: generated `q_e = -N_w*dHe` = the model's qEvap inside the window", strength="tie"),
+    dict(name="Snow.GenTie.S1D.solid_q_e", clause="1D solidification loop: generated `q_e = -N_w*dHe` = the model's qEvap inside the window", strength="tie"),
+    dict(name="Snow.GenTie.S2D.q_e", clause="2D cooling loop: generated `q_e = -N_w*dHe` = S2D.qEvap inside the window", strength="tie"),
+    dict(name="Snow.GenTie.S2D.solid_q_e", clause="2D solidification loop: generated `q_e = -N_w*dHe` = S2D.qEvap inside the window", strength="tie"),
+]
+extra_lean_targets = list(globals().get("extra_lean_targets", [])) + [
+    "SnowProofs.Props.GenTie.Evap", gentie.module("1D"), gentie.module("2D")]
 
 
 def regenerate():
     translate.regenerate_evap()
+    gentie.regenerate("1D")
+    gentie.regenerate("2D")
 
 
 # ---------------------------------------------------------------------------
